@@ -8,6 +8,7 @@ from vlib import mirflow as MF
 
 ENGINES = "M"
 LEVEL = "other"
+TECHNIQUE = "lock-order graph extracted from the MIR of the whole crate; acyclicity decided by a z3 rank-assignment query (unsat core = cycle); cycles replayed by native stress runs with the parking_lot deadlock detector"
 EXPLANATION = ("Lock-order graph extracted from the MIR of every function of the crate (guard liveness by a forward may-analysis, callee may-acquire summaries by fixed point, closures and guard-returning "
                "helpers resolved); z3 decides whether a rank assignment consistent with every held->acquired edge exists (sat = acyclic lock order = no wait-for cycle among blocking parking_lot "
                "acquisitions, for any number of threads).  Cycles and re-entrant read acquisitions are extracted, filtered by gate locks, and replayed by native stress scenarios with the parking_lot deadlock detector.")
